@@ -1215,7 +1215,7 @@ def _decorate_new_with_invariants(new_func: CallableT) -> CallableT:
         try:
             _IN_PROGRESS.set(_get_in_progress() | {instance_mark})
 
-            for invariant in instance.__class__.__invariants__:
+            for invariant in getattr(instance.__class__, "__invariants__", ()):
                 _assert_invariant(contract=invariant, instance=instance)
         finally:
             instance_mark.active = False
@@ -1293,7 +1293,9 @@ def _decorate_with_invariants(
 
                 result = func(*args, **kwargs)
 
-                for invariant in instance.__class__.__invariants__:
+                # (A constructor might be re-used as-is in an unrelated class, ``__init__ = Contracted.__init__``.
+                # If that class has no invariants, there is nothing to be checked on its instances.)
+                for invariant in getattr(instance.__class__, "__invariants__", ()):
                     _assert_invariant(contract=invariant, instance=instance)
 
                 return result
